@@ -1,6 +1,7 @@
 import Mouette.Generated.C08Src
 import Mouette.Lemmas.GeomSource
 import Mouette.Lemmas.OpLemmas
+import Mouette.Lemmas.C18Source
 /-
 C08 — bridges between the assembly loops TRANSLATED from the working tree (`Generated/C08Src.lean`: the nested accumulation loops
 of `operators/mass.py`, read statement by statement on every run) and the triplet model `Model/Operators.lean` about which the
@@ -247,6 +248,131 @@ theorem vertex_to_face_operator_bridge (vs : List V3) (faces : List Face) (hd : 
   unfold C08Src.vertex_to_face_operator vertexToFace
   simp only [forEnum]
   rw [vertex_to_face_fold faces 0 _ (fun _ _ _ => rfl) hd]; simp
+
+/-! ## laplacian: the whole body is translated by C18's translator (`Generated/C18Src.lean: laplacianTriplets`, the running-counter COO
+writes of BOTH branches, regenerated by this check too); here its scalar branch is bridged to this property's model -/
+
+/-- the scalar branch (`connection is None`) of the translated `laplacian`, face by face: 12 triplets per face -/
+theorem laplacian_source_scalar_flat (U : Rat → Mouette.FF.Cpx) (order : Nat) (cotan : Bool) (cot tr : Nat → Nat → Rat)
+    (faces : List (Nat × Nat × Nat × Nat)) :
+    Mouette.Generated.C18S.laplacianTriplets U order cotan false faces cot tr
+      = faces.flatMap (fun it =>
+          let a : Rat := if cotan then cot it.1 it.2.1 / ((2 : Rat) / 1) else ((1 : Rat) / 2)
+          let b : Rat := if cotan then cot it.1 it.2.2.1 / ((2 : Rat) / 1) else ((1 : Rat) / 2)
+          let c : Rat := if cotan then cot it.1 it.2.2.2 / ((2 : Rat) / 1) else ((1 : Rat) / 2)
+          [(it.2.1, it.2.2.1, c), (it.2.2.1, it.2.2.2, a), (it.2.2.2, it.2.1, b)].flatMap (fun h =>
+            [(h.1, h.1, Mouette.FF.ofReal h.2.2), (h.2.1, h.2.1, Mouette.FF.ofReal h.2.2),
+             (h.1, h.2.1, Mouette.FF.cneg (Mouette.FF.ofReal h.2.2)), (h.2.1, h.1, Mouette.FF.cneg (Mouette.FF.ofReal h.2.2))])) := by
+  unfold Mouette.Generated.C18S.laplacianTriplets
+  have := Mouette.Lemmas.C18S.foldl_step_append
+    (fun (acc : List (Nat × Nat × Mouette.FF.Cpx)) (it : Nat × Nat × Nat × Nat) =>
+      [(it.2.1, it.2.2.1, (if cotan then cot it.1 it.2.2.2 / ((2 : Rat) / 1) else ((1 : Rat) / 2))),
+       (it.2.2.1, it.2.2.2, (if cotan then cot it.1 it.2.1 / ((2 : Rat) / 1) else ((1 : Rat) / 2))),
+       (it.2.2.2, it.2.1, (if cotan then cot it.1 it.2.2.1 / ((2 : Rat) / 1) else ((1 : Rat) / 2)))].foldl (fun acc h =>
+          acc ++ [(h.1, h.1, Mouette.FF.ofReal h.2.2)] ++ [(h.2.1, h.2.1, Mouette.FF.ofReal h.2.2)]
+            ++ [(h.1, h.2.1, Mouette.FF.cneg (Mouette.FF.ofReal h.2.2))] ++ [(h.2.1, h.1, Mouette.FF.cneg (Mouette.FF.ofReal h.2.2))]) acc)
+    (fun it =>
+      [(it.2.1, it.2.2.1, (if cotan then cot it.1 it.2.2.2 / ((2 : Rat) / 1) else ((1 : Rat) / 2))),
+       (it.2.2.1, it.2.2.2, (if cotan then cot it.1 it.2.1 / ((2 : Rat) / 1) else ((1 : Rat) / 2))),
+       (it.2.2.2, it.2.1, (if cotan then cot it.1 it.2.2.1 / ((2 : Rat) / 1) else ((1 : Rat) / 2)))].flatMap (fun h =>
+        [(h.1, h.1, Mouette.FF.ofReal h.2.2), (h.2.1, h.2.1, Mouette.FF.ofReal h.2.2),
+         (h.1, h.2.1, Mouette.FF.cneg (Mouette.FF.ofReal h.2.2)), (h.2.1, h.1, Mouette.FF.cneg (Mouette.FF.ofReal h.2.2))]))
+    (by intro acc it; simp [List.foldl_cons, List.flatMap_cons])
+    faces []
+  simpa using this
+
+/-- … and these are exactly the model's `lapSAux` evaluated at the weights `cot[corner]/2` (cotan) resp. `1/2` (uniform), in the same order,
+for every face list and offset (real parts; the imaginary parts of the scalar branch are `0`) -/
+theorem laplacian_source_scalar_aux (U : Rat → Mouette.FF.Cpx) (order : Nat) (cotan : Bool) (cot tr : Nat → Nat → Rat) :
+    ∀ (fs : List F3) (t : Nat) (w : Nat → Rat),
+      (∀ i (h : i < fs.length), w (3 * (t + i)) = (if cotan then cot (t + i) fs[i].1 / 2 else 1 / 2)
+        ∧ w (3 * (t + i) + 1) = (if cotan then cot (t + i) fs[i].2.1 / 2 else 1 / 2)
+        ∧ w (3 * (t + i) + 2) = (if cotan then cot (t + i) fs[i].2.2 / 2 else 1 / 2)) →
+      (Mouette.Generated.C18S.laplacianTriplets U order cotan false (faceIds fs t) cot tr).map (fun e => ((e.1, e.2.1, e.2.2.1) : Trip))
+        = eval w (lapSAux fs t) := by
+  intro fs
+  induction fs with
+  | nil => intro t w _; simp [laplacian_source_scalar_flat, faceIds, lapSAux, eval]
+  | cons f fs ih =>
+    intro t w hw
+    have h0 := hw 0 (by simp)
+    simp only [Nat.add_zero, List.getElem_cons_zero] at h0
+    have hrest : ∀ i (h : i < fs.length), w (3 * (t + 1 + i)) = (if cotan then cot (t + 1 + i) fs[i].1 / 2 else 1 / 2)
+        ∧ w (3 * (t + 1 + i) + 1) = (if cotan then cot (t + 1 + i) fs[i].2.1 / 2 else 1 / 2)
+        ∧ w (3 * (t + 1 + i) + 2) = (if cotan then cot (t + 1 + i) fs[i].2.2 / 2 else 1 / 2) := by
+      intro i h
+      have := hw (i + 1) (by simp; omega)
+      simp only [List.getElem_cons_succ] at this
+      have e : t + (i + 1) = t + 1 + i := by omega
+      rw [e] at this; exact this
+    have ihh := ih (t + 1) w hrest
+    rw [laplacian_source_scalar_flat] at ihh ⊢
+    rw [faceIds, List.flatMap_cons, List.map_append, ihh, lapSAux, eval_append]
+    congr 1
+    simp only [faceLapS, edgeBlockS, eval, List.map_append, List.map_cons, List.map_nil, List.flatMap_cons, List.flatMap_nil,
+      List.append_nil, List.cons_append, List.nil_append, h0.1, h0.2.1, h0.2.2, Mouette.FF.ofReal, Mouette.FF.cneg]
+    norm_num
+    cases cotan <;> simp
+
+/-- `laplacian(mesh, cotan)` without connection, as read from the source: the triplets of the whole mesh are the model's `laplacian w faces`
+with `w (3t+k) = cot[corner k of face t]/2` (resp. `1/2`): every theorem of Props/C08 about `laplacian w faces` (equals the stiffness matrix
+entrywise, symmetric, zero row sums, quadratic form) speaks about the translated body -/
+theorem laplacian_source_scalar (U : Rat → Mouette.FF.Cpx) (order : Nat) (cotan : Bool) (cot tr : Nat → Nat → Rat) (faces : List F3) :
+    (Mouette.Generated.C18S.laplacianTriplets U order cotan false (faceIds faces 0) cot tr).map (fun e => ((e.1, e.2.1, e.2.2.1) : Trip))
+      = laplacian (fun c => if cotan then cot (c / 3)
+          (if c % 3 = 0 then (faces.getD (c / 3) (0, 0, 0)).1 else if c % 3 = 1 then (faces.getD (c / 3) (0, 0, 0)).2.1 else (faces.getD (c / 3) (0, 0, 0)).2.2) / 2
+          else 1 / 2) faces := by
+  unfold laplacian lapS
+  apply laplacian_source_scalar_aux
+  intro i h
+  simp only [Nat.zero_add]
+  have e0 : 3 * i / 3 = i := by omega
+  have e1 : (3 * i + 1) / 3 = i := by omega
+  have e2 : (3 * i + 2) / 3 = i := by omega
+  have m0 : 3 * i % 3 = 0 := by omega
+  have m1 : (3 * i + 1) % 3 = 1 := by omega
+  have m2 : (3 * i + 2) % 3 = 2 := by omega
+  simp [e0, e1, e2, m0, m1, m2, List.getD_eq_getElem?_getD, h]
+
+/-! ## laplacian_triangles: the rows of `Nabla` (translated by C18's translator: `Generated/C18Src.lean: nablaRows`) -/
+
+theorem nablaRows_flat (U : Rat → Mouette.FF.Cpx) (order : Nat) (tr : Nat → Nat → Rat) (edges : List (Nat × Option Nat × Option Nat)) :
+    Mouette.Generated.C18S.nablaRows U order false edges tr
+      = edges.flatMap (pairRow (Mouette.FF.cneg Mouette.FF.cone) Mouette.FF.cone) := by
+  unfold Mouette.Generated.C18S.nablaRows
+  have h := Mouette.Lemmas.C18S.foldl_step_append
+    (fun (acc : List (Nat × List (Nat × Mouette.FF.Cpx))) (it : Nat × Option Nat × Option Nat) =>
+      acc ++ pairRow (Mouette.FF.cneg Mouette.FF.cone) Mouette.FF.cone it)
+    (pairRow (Mouette.FF.cneg Mouette.FF.cone) Mouette.FF.cone) (fun _ _ => rfl) edges []
+  rw [List.nil_append] at h
+  rw [← h]
+  congr 1
+  funext acc it
+  rcases it with ⟨i, _ | a, _ | b⟩ <;> simp [pairRow]
+
+theorem pairRow_real (faces : List Face) (e : Nat × Nat) (k : Nat) (o1 o2 : Option Nat) (h : edgeFaces faces e = (o1, o2)) :
+    (pairRow (Mouette.FF.cneg Mouette.FF.cone) Mouette.FF.cone (k, o1, o2)).map (fun r => r.2.map (fun c => ((c.1, c.2.1) : Nat × Rat)))
+      = [nablaRow faces e].filter (fun r => !r.isEmpty) := by
+  unfold nablaRow
+  rw [h]
+  cases o1 <;> cases o2 <;> simp [pairRow, Mouette.FF.cneg, Mouette.FF.cone]
+
+/-- `laplacian_triangles` without connection, as read from the source: one row of `Nabla` per edge that has a face on BOTH sides, and that
+row is the model's `nablaRow` (`-1` at `T1`, `+1` at `T2`); border edges contribute no row -/
+theorem laplacian_triangles_source_rows (U : Rat → Mouette.FF.Cpx) (order : Nat) (tr : Nat → Nat → Rat) (faces : List Face) :
+    ∀ (es : List (Nat × Nat)) (k : Nat),
+      (Mouette.Generated.C18S.nablaRows U order false (edgeIds faces es k) tr).map (fun r => r.2.map (fun c => ((c.1, c.2.1) : Nat × Rat)))
+        = (es.map (nablaRow faces)).filter (fun r => !r.isEmpty) := by
+  intro es
+  induction es with
+  | nil => intro k; simp [nablaRows_flat, edgeIds]
+  | cons e es ih =>
+    intro k
+    have ihh := ih (k + 1)
+    rw [nablaRows_flat] at ihh ⊢
+    rw [edgeIds, List.flatMap_cons, List.map_append, ihh, List.map_cons,
+      pairRow_real faces e k _ _ (by simp [edgeFaces, edgeFacesOpt])]
+    rw [← List.filter_append]; rfl
 
 example : C08Src.adjacency_matrix [⟨0,0,0⟩, ⟨1,0,0⟩] [(0, 1)] (fun _ _ => 2) (fun _ => 5) "length" = [(0, 1, 2), (1, 0, 2)] := by decide +kernel
 example : C08Src.vertex_to_edge_operator [] [(0, 1), (1, 2)] true 1 0 = 1 ∧ C08Src.vertex_to_edge_operator [] [(0, 1), (1, 2)] true 1 1 = -1 := by
